@@ -8,7 +8,7 @@ use std::sync::{Arc, Mutex};
 
 #[derive(Clone, Copy, Debug)]
 enum Op { Add(&'static [u16]), Remove(u16), SetKb, SetDisp, Mmap(u16, bool), Munmap(u16), Read(u16), Write(u16) }
-const OPS: [Op; 29] = [
+const OPS: [Op; 32] = [
     Op::Add(&[0xFE10]), Op::Add(&[0xFE12]), Op::Add(&[0xFE10, 0xFE12]), Op::Add(&[0xFE00]), Op::Add(&[0x3000]), Op::Add(&[]), Op::Add(&[0xFE12, 0xFE12]), Op::Add(&[0xFE14, 0xFE06]),
     Op::Remove(0), Op::Remove(1), Op::Remove(2), Op::Remove(3), Op::Remove(4), Op::Remove(5),
     Op::SetKb, Op::SetDisp,
@@ -16,15 +16,17 @@ const OPS: [Op; 29] = [
     Op::Munmap(0xFE10), Op::Munmap(0xFE00), Op::Munmap(0xFFFC),
     Op::Read(0xFE00), Op::Read(0xFE10), Op::Read(0xFE12), Op::Read(0xFFFC),
     Op::Write(0xFE10), Op::Write(0xFE00),
+    // the last I/O address
+    Op::Add(&[0xFFFF]), Op::Read(0xFFFF), Op::Write(0xFFFF),
 ];
-const PROBES: [u16; 7] = [0xFE00, 0xFE02, 0xFE06, 0xFE10, 0xFE12, 0xFE14, 0xFFFC];
+const PROBES: [u16; 8] = [0xFE00, 0xFE02, 0xFE06, 0xFE10, 0xFE12, 0xFE14, 0xFFFC, 0xFFFF];
 
 /// recording device: every call it receives is logged under its tag
 #[derive(Clone)]
 struct Rec { tag: u16, log: Arc<Mutex<Vec<(u16, bool, u16, u16)>>> }
 impl ExternalDevice for Rec {
-    fn io_read(&mut self, addr: u16, effectful: bool) -> Option<u16> { if effectful { self.log.lock().unwrap().push((self.tag, false, addr, 0)); } Some(rec_value(self.tag, addr)) }
-    fn io_write(&mut self, addr: u16, data: u16) -> bool { self.log.lock().unwrap().push((self.tag, true, addr, data)); true }
+    fn io_read(&mut self, addr: u16, effectful: bool) -> Option<u16> { if effectful { self.log.lock().unwrap_or_else(|e| e.into_inner()).push((self.tag, false, addr, 0)); } Some(rec_value(self.tag, addr)) }
+    fn io_write(&mut self, addr: u16, data: u16) -> bool { self.log.lock().unwrap_or_else(|e| e.into_inner()).push((self.tag, true, addr, data)); true }
     fn io_reset(&mut self) {}
     fn poll_interrupt(&mut self) -> Option<Interrupt> { None }
 }
@@ -56,7 +58,7 @@ fn fresh() -> World {
 fn priv_ctx() -> MemAccessCtx { MemAccessCtx { privileged: true, strict: false, io_effects: true, track_access: false } }
 
 fn apply(w: &mut World, op: Op) -> Result<(), (String, String)> {
-    let before_log = w.log.lock().unwrap().len();
+    let before_log = w.log.lock().unwrap_or_else(|e| e.into_inner()).len();
     let tag = w.next_tag;
     let what = format!("{op:?}");
     let expect_calls: Vec<(u16, bool, u16, u16)>;
@@ -124,7 +126,7 @@ fn apply(w: &mut World, op: Op) -> Result<(), (String, String)> {
             }
         }
     }
-    let calls: Vec<_> = w.log.lock().unwrap()[before_log..].to_vec();
+    let calls: Vec<_> = w.log.lock().unwrap_or_else(|e| e.into_inner())[before_log..].to_vec();
     if calls != expect_calls { return Err(("wrong-device-reached".into(), format!("{what}: device calls {calls:x?}, expected {expect_calls:x?} (owners {:x?}, devices {:?})", w.model.owner, w.model.devs))); }
     Ok(())
 }
